@@ -935,24 +935,28 @@ struct Gr2Edgelist1Ind : public Conversion {
 template <bool LittleEndian, typename T>
 void writeEndian(T* out, T value) {
   static_assert(sizeof(T) == 4 || sizeof(T) == 8, "unknown data size");
+  // swap the bytes of the object representation: passing a float or double
+  // through the integer conversion functions would convert its value
+  typename std::conditional<sizeof(T) == 4, uint32_t, uint64_t>::type bits;
+  memcpy(&bits, &value, sizeof(T));
   switch ((sizeof(T) == 4 ? 0 : 2) + (LittleEndian ? 0 : 1)) {
   case 3:
-    value = galois::convert_htobe64(value);
+    bits = galois::convert_htobe64(bits);
     break;
   case 2:
-    value = galois::convert_htole64(value);
+    bits = galois::convert_htole64(bits);
     break;
   case 1:
-    value = galois::convert_htobe32(value);
+    bits = galois::convert_htobe32(bits);
     break;
   case 0:
-    value = galois::convert_htole32(value);
+    bits = galois::convert_htole32(bits);
     break;
   default:
     abort();
   }
 
-  *out = value;
+  memcpy(out, &bits, sizeof(T));
 }
 
 template <bool LittleEndian, typename T>
